@@ -70,6 +70,7 @@ type Run struct {
 	vio      map[string]*Violation
 	maxSamp  int
 	caseCtr  int64
+	auto     []string // first case ids, used as samples when the harness recorded none
 }
 
 func env(k, d string) string {
@@ -165,6 +166,9 @@ func (r *Run) Case(id string) bool {
 		r.res.ReplayHit++
 	}
 	r.res.Evaluations++
+	if len(r.auto) < 3 {
+		r.auto = append(r.auto, trunc(id, 400))
+	}
 	return true
 }
 
@@ -336,6 +340,11 @@ func (r *Run) Finish() {
 	defer r.mu.Unlock()
 	r.res.WallS = time.Since(r.start).Seconds()
 	r.res.Finished = true
+	if len(r.res.Samples) == 0 {
+		for _, a := range r.auto {
+			r.res.Samples = append(r.res.Samples, map[string]interface{}{"case": a})
+		}
+	}
 	sigs := make([]string, 0, len(r.vio))
 	for s := range r.vio {
 		sigs = append(sigs, s)
